@@ -25,7 +25,7 @@ BUDGET = {"quick": {"shards": 8, "examples": 25}, "thorough": {"shards": 16, "ex
 
 CMAKE = "/usr/bin/cmake"
 # values that change when CMake evaluates them a second time come first
-PREFIXES = ["${CMAKE_VERSION}", "a\\\\b", "$ENV{HOME}", "@CMAKE_VERSION@", "pfx", "my prefix", "a.b.c", "préfixe 漢", "p-1", "x y  z", "$dollar", "quo\"te", "back\\slash", "(paren)", "#hash", "N", "OFF", "0", "IGNORE", "a-NOTFOUND", "FALSE", "no", "my-repo", "api-reference"]
+PREFIXES = ["Tools ", "${CMAKE_VERSION}", "tab\t", " lead", "a\\\\b", "$ENV{HOME}", "@CMAKE_VERSION@", "pfx", "my prefix", "a.b.c", "préfixe 漢", "p-1", "x y  z", "$dollar", "quo\"te", "back\\slash", "(paren)", "#hash", "N", "OFF", "0", "IGNORE", "a-NOTFOUND", "FALSE", "no", "my-repo", "api-reference"]
 GLOBS = ["\\#*", "*\\[wip\\]*", "${x}*", "*b.cmake", "sub", "**/sub/*", "a?.cmake", "pre*", "x y", "third-party-release"]
 
 
@@ -147,6 +147,13 @@ def evaluate(case):
                 f.write("cminx_gen_rst(" + " ".join(cmake_quote(a) for a in [in_arg, out_cm]) + ")\n")
             subprocess.run([CMAKE, "-P", d0], cwd=work, env=dict(env, C19_LOG=log + ".prior"), capture_output=True, text=True)
             S.run_main([in_arg] + (["-r"] if os.path.isdir(in_abs) else []) + ["-o", out_cli], cwd=work, cfgdir=sb.path("cfg"))
+            # ... and both hold pages this call does not regenerate (another input's, hand-written ones)
+            for o in (n_cm, n_cli):
+                for rel in ("hand_written.rst", "zz_other_input.rst", "zz_sub/older.rst"):
+                    pth = os.path.join(work, o, rel)
+                    os.makedirs(os.path.dirname(pth), exist_ok=True)
+                    with open(pth, "w") as f:
+                        f.write("Kept\n====\n")
         if case.get("via") == "project":
             res.labels.append("project-mode")
             os.makedirs(os.path.join(work, "proj", "docs"))
